@@ -54,6 +54,25 @@ theorem none_iff_nothing_matches {V M : Type} (lt : V → V → Bool) (inv : Lis
     intro hall
     exact hall r h.1 h.2.1
 
+/-- **M2b (artifacts that do not match have no influence).** Dropping from the inventory any artifacts that do not match
+the query (any sub-selection `p` that keeps every matching artifact) leaves the result of both resolvers unchanged — the
+answer is a function of the matching artifacts, in their inventory order, alone. -/
+theorem non_matching_artifacts_have_no_influence {V M : Type} (cmp : V → V → Ordering) (pcmp : V → V → Option Ordering)
+    (inv : List (Artifact V M)) (os : Os) (arch : Arch) (req : Req V M) (p : Artifact V M → Bool)
+    (hp : ∀ a, selects os arch req a = true → p a = true) :
+    resolve cmp (inv.filter p) os arch req = resolve cmp inv os arch req ∧
+      partialResolve pcmp (inv.filter p) os arch req = partialResolve pcmp inv os arch req := by
+  have h : (inv.filter p).filter (selects os arch req) = inv.filter (selects os arch req) := by
+    rw [List.filter_filter]
+    apply List.filter_congr
+    intro a _
+    cases hs : selects os arch req a with
+    | false => simp
+    | true => simp [hp a hs]
+  unfold resolve partialResolve
+  rw [h]
+  exact ⟨rfl, rfl⟩
+
 /-- **M3a.** `hex::decode (hex::encode b) = b` for every byte string. -/
 theorem hex_roundtrip (b : Bytes) (hb : ∀ x ∈ b, x < 256) : decodeHex (encodeHex b) = some b :=
   hexDecode_hexEncode b hb
